@@ -267,6 +267,28 @@ def run(ctx):
             r2 = call(lambda: r.clear_features(*F))
             if isinstance(r2, wire_err) or sig(r2) != sig(r):
                 ctx.fail('clear_features is not idempotent', [str(c), list(F)], fingerprint=['clear-idem', str(c), list(F)])
+    # the same on categories that do not outlive the call (a parser builds and drops them all the time): every
+    # category is parsed afresh from its text, erased, compared and released
+    texts = [str(c) for c in cpool if '[' in str(c)][:ctx.budget(400, 2000)]
+    few = [('X', 'nb'), ('nb',), ('X',), ('dcl', 'b')]
+    n_short = 0
+    for rnd in range(ctx.budget(6, 20)):
+        for t in texts:
+            F = few[(rnd + len(t)) % len(few)]
+            try:
+                c = Category.parse(t)
+            except Exception:
+                continue
+            want = erase(c, set(F))
+            r = call(lambda: c.clear_features(*F))
+            ctx.evaluations += 1
+            n_short += 1
+            if isinstance(r, wire_err) or sig(r) != want:
+                ctx.fail('clear_features did not remove exactly the named features (category built, erased and released)',
+                         [t, list(F), str(r)], fingerprint=['clear-short-lived', t, list(F)])
+                break
+            del c, r
+    ctx.extra['short_lived_erasures'] = n_short
     # malformed feature names: the model and the implementation must agree on the error
     for c in cpool[:200]:
         for F in (('a=b,c',), ('X', 'a=b,c=d'), ('a=b=c,d=e,f=g',)):
